@@ -552,6 +552,22 @@ bool block_until(const std::function<bool()>& pred, i64 deadline_ns, const char*
     return pred();
 }
 
+bool quiesce(i64 timeout_ns)
+{
+    Thr* self = t_self;
+    const std::function<bool()> pred = [self] {
+        for (auto& t : g.threads) {
+            if (t.get() == self || t->st == Finished) continue;
+            // quiet: waiting without a deadline for something that has not happened (epoll_wait, a condition, a join);
+            // a thread that was descheduled in the middle of its work has a deadline and is not quiet
+            if (t->st == Blocked && t->deadline < 0 && !(t->pred && (*t->pred)())) continue;
+            return false;
+        }
+        return true;
+    };
+    return block_until(pred, now_ns() + timeout_ns, "driver.quiesce");
+}
+
 void sleep_ns(i64 ns)
 {
     static const std::function<bool()> never = [] { return false; };
@@ -671,8 +687,9 @@ namespace {
     }
     Thr* find_by_handle(pthread_t h)
     {
-        for (auto& t : g.threads)
-            if (t->has_handle && pthread_equal(t->handle, h)) return t.get();
+        // newest first: the C library reuses pthread_t values of joined threads
+        for (size_t i = g.threads.size(); i-- > 0;)
+            if (g.threads[i]->has_handle && pthread_equal(g.threads[i]->handle, h)) return g.threads[i].get();
         return nullptr;
     }
 
@@ -758,6 +775,10 @@ void __wrap__ZNSt6thread4joinEv(std::thread* self)
         sim::block_until(pred, -1, "thread.join");
     }
     __real__ZNSt6thread4joinEv(self);
+    if (target) {
+        IgnoreScope ig;
+        target->has_handle = false; // the handle value may be given to a later thread
+    }
 }
 
 // ---- mutexes
